@@ -19,12 +19,14 @@ each statement kind its meaning over an abstract file system and an abstract obj
 * `writeBuf`   – `f.write(content.getvalue())`: writes the already built text to the opened destination;
 * `unlink`     – `os.unlink` / `os.remove` / `os.rename` / `os.replace` / `shutil.*` reaching the destination: what was
                  at the path is gone from it (modelled in the worst case: unconditionally);
+* `readBack`   – a `load` / `loads` / `deserialize` / `parse_file` call inside dump (reading the written file back into a
+                 fresh instance): a second validation pass by the READER, which may refuse what every writer accepted;
 * `unknown`    – any statement outside the idiom: may raise (assumed not to touch the file system).
 -/
 namespace PM
 
 inductive Eff where
-  | validate | openW | getParser | serialize | buildFile | newBuf | buildMem | writeBuf | unlink | unknown
+  | validate | openW | getParser | serialize | buildFile | newBuf | buildMem | writeBuf | unlink | readBack | unknown
 deriving DecidableEq, Repr, Inhabited
 
 namespace Eff
@@ -32,18 +34,18 @@ namespace Eff
 def name : Eff → String
   | validate => "validate" | openW => "openW" | getParser => "getParser"
   | serialize => "serialize" | buildFile => "buildFile" | newBuf => "newBuf" | buildMem => "buildMem"
-  | writeBuf => "writeBuf" | unlink => "unlink" | unknown => "unknown"
+  | writeBuf => "writeBuf" | unlink => "unlink" | readBack => "readBack" | unknown => "unknown"
 
 def ofName : String → Eff
   | "validate" => validate | "openW" => openW | "getParser" => getParser
   | "serialize" => serialize | "buildFile" => buildFile | "newBuf" => newBuf | "buildMem" => buildMem
-  | "writeBuf" => writeBuf | "unlink" => unlink | _ => unknown
+  | "writeBuf" => writeBuf | "unlink" => unlink | "readBack" => readBack | _ => unknown
 
 /-- statements that run code of the object and can therefore refuse it: validators, section writers, the encoder
 (`build_file`, wherever it writes to), anything unrecognised.  `openW` (I/O error: nothing is created then), `newBuf`
 and `writeBuf` (a plain write of a string that already exists) are not. -/
 def fallible : Eff → Bool
-  | validate | getParser | serialize | unknown | buildMem | buildFile => true
+  | validate | getParser | serialize | unknown | buildMem | buildFile | readBack => true
   | openW | newBuf | writeBuf | unlink => false
 
 /-- statements that destroy what is at the destination as soon as they run: the open for writing (truncates) and any
@@ -72,6 +74,8 @@ structure DumpObj where
   serialize : Except Err Content := .ok []
   /-- an unrecognised statement -/
   unknown : Except Err Unit := .ok ()
+  /-- loading the written text back into a fresh instance -/
+  readBack : Except Err Unit := .ok ()
   /-- `open(path, "w")` refused by the operating system (nothing is created or truncated then) -/
   openErr : Option Err := none
   /-- `build_file` fails after having written this many characters -/
@@ -97,6 +101,7 @@ def liftErr (eff : Eff) : Except Err α → Except Failure α
 def step (o : DumpObj) (path : Path) (st : DumpSt) : Eff → DumpSt × Except Failure Unit
   | .validate => (st, liftErr .validate o.validate)
   | .unknown => (st, liftErr .unknown o.unknown)
+  | .readBack => (st, liftErr .readBack o.readBack)
   | .getParser =>
     match o.getParser with
     | .ok t => ({ st with parser := some t }, .ok ())
